@@ -53,7 +53,9 @@ pub fn gen_spec(ch: &mut Ch) -> WorldSpec {
                 t.pre_gap_ns = ch.below(4, "t.pregap") * 50 * MS;
                 match kind_sel {
                     0 => {
-                        t.method = if ch.chance(1, 5, "t.fetch") { 5 } else { 1 };
+                        // mostly GET / FETCH; now and then a payload-less PATCH /
+                        // iPATCH whose reply is block-wise (same key rules)
+                        t.method = *ch.pick(&[1u8, 1, 1, 1, 5, 1, 1, 5, 6, 7], "t.dl.method");
                         let early = if ch.chance(2, 5, "t.early") { Some(ch.below(8, "t.early.szx") as u8) } else { None };
                         let reduce = if ch.chance(1, 4, "t.reduce") { Some((1 + ch.below(3, "t.reduce.after") as u32, ch.below(6, "t.reduce.szx") as u8)) } else { None };
                         t.kind = TKind::Download { early, reduce };
